@@ -2,7 +2,7 @@
    Sweep protocol of mps_common.py (Model/Sweep.v); only statements here, every proof is `exact <lemma of
    Proofs/SweepP.v or Proofs/SweepP2.v>`.  Energy / convergence / canonical-form clauses are decided by the oracle of
    harness/c13.py (exact diagonalisation) only; see T13_energy_variational_partial. *)
-From TenpyV Require Import Base.Prelude Model.Charge Model.Sweep Model.SweepCharge Proofs.SweepP Proofs.SweepP2 Proofs.SweepChargeP.
+From TenpyV Require Import Base.Prelude Model.Charge Model.Sweep Model.SweepCharge Model.SweepInf Proofs.SweepP Proofs.SweepP2 Proofs.SweepChargeP Proofs.SweepInfP.
 
 (* get_sweep_schedule, finite and infinite bc, n = 1, 2, every L > n.  With m right moves (L - n finite, L infinite):
    the schedule has 2m entries; position i is optimised moving right for every i < m and moving left for every
@@ -25,10 +25,30 @@ Proof. exact schedule_covers_full. Qed.
    read to build eff_H was contracted from the CURRENT versions of all sites to its left / right, and after every step
    every stored environment is current.  Proved by induction (Proofs/SweepP2.v) with the invariant: at schedule
    position i0 the stored LP have index <= i0, the stored RP have index >= i0 + n - 1, LP[0] and RP[L-1] are stored and
-   all stored environments carry the current site versions.  Not covered: infinite bc (environments lag by design;
-   decided by the oracle / instrumentation of harness/c13.py only). *)
+   all stored environments carry the current site versions.  Infinite bc: T13_no_stale_env_infinite_partial below. *)
 Theorem T13_no_stale_env : forall L n k, (n = 1 \/ n = 2)%nat -> (n < L)%nat -> no_stale L n k = true.
 Proof. exact no_stale_all. Qed.
+
+(* PARTIAL (bounded unit cell, UNBOUNDED number of sweeps): infinite bc, Model/SweepInf.v (get_LP / get_RP with the
+   shift by unit cells, update_env, free_no_longer_needed_envs, infinite schedule; every contracted factor of a stored
+   environment carries one boolean "contracted from the current version of that site", the nearest 2L+2 are recorded).
+   Environments of iDMRG lag by design; what holds - and is what `no_stale_inf` evaluates - is: for every number k of
+   sweeps started from init_LP(0) / init_RP(L-1), the LP[i0] and RP[i0+n-1] read for eff_H exist and are current on
+   EVERY site of a window of L consecutive sites containing the optimised sites ([0, L) while moving right, [n, L+n)
+   while moving left); only factors outside that window (other copies of the unit cell) may be older versions.
+   Proof: for each L the abstract state is a fixed point of the sweep after three sweeps (evaluation), then induction
+   on k.  Missing for the full statement: unit cells L > 24 (no induction over L); the model is tied to the code by
+   transcription only (the instrumentation of harness/c13.py traces finite runs). *)
+Theorem T13_no_stale_env_infinite_partial : forall L n k, (n = 1 \/ n = 2)%nat -> (n < L <= 24)%nat ->
+  no_stale_inf L n k = true.
+Proof. exact no_stale_inf_all. Qed.
+
+(* the window cannot be widened to "all recorded factors": the LP read at the turning point i0 = L contains site 0 in
+   the version before the update at i0 = L - 1 rewrote it (as site L) *)
+Theorem T13_infinite_lag_is_real : exists L n, (n < L)%nat /\
+  let s := exec_i L n (init_i L) (firstn L (schedule false L n)) in
+  current_upto L (snd (get_lp_i L s L)) = false /\ current_upto (L - 1) (snd (get_lp_i L s L)) = true.
+Proof. exact lag_is_real. Qed.
 
 (* Charge sector (Model/SweepCharge.v: qtotal bookkeeping of TwoSiteDMRGEngine / SingleSiteDMRGEngine.update_local:
    theta.qtotal, the qtotal_LR handed to svd_theta / the mixers, determine_qtotal_L_R, gauge_total_charge, set_B, with
@@ -100,9 +120,19 @@ Proof.
   split; [vm_compute; reflexivity|]. split; vm_compute; reflexivity.
 Qed.
 
+(* non-vacuity: two sweeps of the infinite two-site schedule on a 4-site unit cell; the state after three sweeps *)
+Example T13_example_inf_run : no_stale_inf 4 2 2 = true /\
+  ilp (exec_i 4 2 (init_i 4) (repeat_list (schedule false 4 2) 3)) =
+    [Some [false; false; false; false; false; false; false; false; false; false]; None; None; None] /\
+  nth 1 (irp (exec_i 4 2 (init_i 4) (repeat_list (schedule false 4 2) 3))) None =
+    Some [true; true; true; false; false; false; false; false; false; false].
+Proof. vm_compute. repeat split; reflexivity. Qed.
+
 Print Assumptions T13_schedule_covers.
 Print Assumptions T13_no_stale_env.
 Print Assumptions T13_energy_variational_partial.
+Print Assumptions T13_no_stale_env_infinite_partial.
+Print Assumptions T13_infinite_lag_is_real.
 Print Assumptions T13_charge_sector.
 Print Assumptions T13_charge_no_raise.
 Print Assumptions T13_charge_one_site_dm_mixer_refuted.
